@@ -35,6 +35,10 @@ EXTENDS Integers, Sequences, FiniteSets, TLC, Json
 CONSTANTS NGetters,   \* MC: processes 1..NGetters issue one Get each; process 0 mutates
           MaxMut,     \* MC: length of the mutator's program
           Recheck,    \* TRUE = the design; FALSE = GetInsert does not look again
+          Precheck,   \* FALSE = the design: Remove looks the name up and deletes it in one critical section;
+                      \* TRUE = the refuted deviation: RemoveCheck (Has, read lock) . RemoveDelete (write lock,
+                      \* delete whatever is there) . RemoveNotify (always)
+          NMutators,  \* MC: 1, or 2 = a second process running one Add/Remove (overlapping Removes of a name)
           NCases      \* Gen: number of cases
 
 VARIABLE st
@@ -98,6 +102,14 @@ LocalStep(cfg, reg, op, stage, made, pend, fresh) ==
                 Chg(n, reg[n], fresh, FALSE), "AddCommit")
     [] op.op = "Add" /\ stage = "cb" ->
          [base EXCEPT !.ret = Ret(made, "OK"), !.chg = <<pend>>, !.act = "AddNotify"]
+    [] op.op = "Remove" /\ stage = "idle" /\ Precheck ->
+         IF reg[n] = 0 THEN [base EXCEPT !.ret = Ret(0, "OK"), !.act = "RemoveCheck"]
+         ELSE [base EXCEPT !.stage = "del", !.act = "RemoveCheck"]
+    [] op.op = "Remove" /\ stage = "del" ->      \* (only with Precheck) the name may be gone by now; it is reported all the same
+         Commit([base EXCEPT !.reg = [reg EXCEPT ![n] = 0], !.made = reg[n],
+                             !.tr = IF reg[n] # 0 THEN <<Chg(n, reg[n], 0, FALSE)>> ELSE <<>>,
+                             !.ret = IF cfg.hascb THEN NoRet ELSE Ret(reg[n], "OK")],
+                Chg(n, reg[n], 0, FALSE), "RemoveDelete")
     [] op.op = "Remove" /\ stage = "idle" ->
          IF reg[n] = 0 THEN [base EXCEPT !.ret = Ret(0, "OK"), !.act = "RemoveCommit"]     \* no transition, no callback
          ELSE Commit([base EXCEPT !.reg = [reg EXCEPT ![n] = 0], !.made = reg[n],
@@ -143,8 +155,11 @@ Inits == { [n \in Names |-> 0], [n \in Names |-> IF n = NameSeq[1] THEN 1 ELSE 0
 (* MC                                                                      *)
 MutOps == { [op |-> o, n |-> n] : o \in {"Add", "Remove"}, n \in Names }
 SeqsUpTo(S, k) == UNION { [1..j -> S] : j \in 0..k }
-MCInit == st \in { Start(cfg, init, [p \in 0..NGetters |-> IF p = 0 THEN Proc(mp) ELSE Proc(<<[op |-> "Get", n |-> gn[p]]>>)]) :
-                     cfg \in Cfgs, init \in Inits, mp \in SeqsUpTo(MutOps, MaxMut), gn \in [1..NGetters -> Names] }
+MCProcs == 0..NGetters \cup (IF NMutators = 2 THEN {NGetters + 1} ELSE {})
+MCInit == st \in { Start(cfg, init, [p \in MCProcs |-> IF p = 0 THEN Proc(mp) ELSE IF p = NGetters + 1 THEN Proc(mp2)
+                                                       ELSE Proc(<<[op |-> "Get", n |-> gn[p]]>>)]) :
+                     cfg \in Cfgs, init \in Inits, mp \in SeqsUpTo(MutOps, MaxMut),
+                     mp2 \in (IF NMutators = 2 THEN SeqsUpTo(MutOps, 1) ELSE {<<>>}), gn \in [1..NGetters -> Names] }
 MCNext == \/ \E p \in Procs(st) : ~Finished(st, p) /\ st' = Step(st, p)
           \/ (\A p \in Procs(st) : Finished(st, p)) /\ UNCHANGED st
 
@@ -169,6 +184,11 @@ NotFoundOnlyWithoutSource ==
         /\ ~(st.cfg.hasfb /\ Has(st.cfg.fb, d.op.n)) /\ ~(st.cfg.hasfac /\ d.op.n \in Range(st.cfg.facok)) /\ d.ret.c = 0
 \* the callbacks are exactly the transitions: never one that did not happen, all of them once nobody is
 \* between commit and callback (their order may differ: callbacks run outside the lock)
+\* every reported change is a transition that happened; a client is handed back by at most one Remove
+EveryReportIsATransition == \A j \in 1..Len(st.log) : Count(st.log, st.log[j]) <= Count(st.trans, st.log[j])
+OneRemoveReturnsTheClient ==
+  \A j, k \in 1..Len(st.done) :
+     (j # k /\ st.done[j].op.op = "Remove" /\ st.done[k].op.op = "Remove" /\ st.done[j].ret.c # 0) => st.done[j].ret.c # st.done[k].ret.c
 ChangeLogMatches ==
   /\ \A j \in 1..Len(st.log) : Count(st.log, st.log[j]) <= Count(st.trans, st.log[j])
   /\ (\A p \in Procs(st) : st.procs[p].stage # "cb") => \A j \in 1..Len(st.trans) : Count(st.log, st.trans[j]) = Count(st.trans, st.trans[j])
@@ -202,7 +222,7 @@ RandCfg(z) ==
 RandInit(z) == [n \in Names |-> IF Flip(z, 30) THEN 1 + (CHOOSE j \in 1..Len(NameSeq) : NameSeq[j] = n) ELSE 0]
 
 \* mode "seq": an operation runs to completion before the next starts; "conc": any process steps;
-\* "race": the processes all Get the same name and step in lock-step through the window
+\* "race": the processes all Get the same new name; "rmrace": they all Remove the same present name
 RECURSIVE Run(_, _, _)
 Run(s, sched, mode) ==
   LET live == { p \in Procs(s) : ~Finished(s, p) }
@@ -213,13 +233,15 @@ Run(s, sched, mode) ==
           IN Run(Step(s, p), Append(sched, [p |-> p, act |-> r.act, fresh |-> IF r.used THEN s.next ELSE 0]), mode)
 
 Case(z) ==
-  LET mode == W(<<"seq", "conc", "conc", "race">>)
+  LET mode == W(<<"seq", "conc", "conc", "race", "race", "rmrace">>)
       np == IF mode = "seq" THEN 1 ELSE R(2..3)
       n0 == R(Names)
-      progs == IF mode = "race" THEN [p \in 1..np |-> Proc(<<[op |-> "Get", n |-> n0]>> \o (IF Flip(z, 30) THEN <<RandOp(z)>> ELSE <<>>))]
+      progs == IF mode = "rmrace" THEN [p \in 1..np |-> Proc(<<[op |-> "Remove", n |-> n0]>> \o (IF Flip(z, 30) THEN <<RandOp(z)>> ELSE <<>>))]
+               ELSE IF mode = "race" THEN [p \in 1..np |-> Proc(<<[op |-> "Get", n |-> n0]>> \o (IF Flip(z, 30) THEN <<RandOp(z)>> ELSE <<>>))]
                ELSE [p \in 1..np |-> Proc(RandProg(z, IF mode = "seq" THEN 6 ELSE 3))]
       cfg == IF mode = "race" THEN [RandCfg(z) EXCEPT !.hasfac = TRUE, !.facok = NameSeq] ELSE RandCfg(z)
-      s0 == Start(cfg, IF mode = "race" THEN [n \in Names |-> 0] ELSE RandInit(z), progs)
+      s0 == Start(cfg, IF mode = "race" THEN [n \in Names |-> 0]
+                       ELSE IF mode = "rmrace" THEN [n \in Names |-> IF n = n0 THEN 5 ELSE 0] ELSE RandInit(z), progs)
   IN [id |-> z, mode |-> mode, cfg |-> cfg, init |-> s0.init,
       progs |-> [p \in 1..np |-> progs[p].prog], sched |-> Run(s0, <<>>, mode)]
 
